@@ -99,7 +99,8 @@ def coq_build(pid, extra_targets=()):
     rc, out, err = coq_project()
     if rc != 0:
         return False, out + err
-    targets = [f"{pid}/Properties.vo", f"{pid}/Extract.vo"] + list(extra_targets)
+    targets = [f"{pid}/{f.stem}.vo" for f in sorted((COQ / pid).glob("Properties*.v"))]
+    targets += [f"{pid}/Extract.vo"] + list(extra_targets)
     targets = [t for t in targets if (COQ / t[:-1]).exists()]
     cmd = ["timeout", "3000", "make", "-k", "-j16"] + targets
     rc, out, err = sh(cmd, cwd=COQ, timeout=3100)
@@ -107,14 +108,26 @@ def coq_build(pid, extra_targets=()):
 
 
 def coq_assumptions(pid):
-    """re-run the Properties file; returns list of dicts {theorem, axioms, ok} and raw log"""
-    src = COQ / pid / "Properties.v"
+    """re-run every Properties*.v file of the package; returns (theorems, log, ok)"""
+    res, logs, ok = [], "", True
+    files = sorted((COQ / pid).glob("Properties*.v"))
+    if not files:
+        return [], "no Properties*.v file", False
+    for f in files:
+        r, l, o = coq_assumptions_file(pid, f)
+        res += r
+        logs += l
+        ok = ok and o
+    return res, logs, ok
+
+
+def coq_assumptions_file(pid, src):
     names = re.findall(r"^\s*Print Assumptions\s+([\w.']+)\s*\.", src.read_text(), flags=re.M)
     outdir = BUILD / pid
     outdir.mkdir(parents=True, exist_ok=True)
     rc, out, err = sh(["timeout", "900", "coqc", "-Q", ".", "Tetl", "-w",
                        "-notation-overridden,-deprecated-hint-without-locality,-deprecated-instance-without-locality",
-                       "-o", str(outdir / "Properties.vo"), f"{pid}/Properties.v"], cwd=COQ, timeout=1000)
+                       "-o", str(outdir / (src.stem + ".vo")), f"{pid}/{src.name}"], cwd=COQ, timeout=1000)
     res = []
     if rc != 0:
         return [{"theorem": n, "axioms": None, "ok": False} for n in names], out + err, False
@@ -338,7 +351,7 @@ def run_part(pid, tier="quick", seed=0, replay=None, report_pid=None):
 
     # ---- 1. Coq
     coq_ok, coq_log = coq_build(pid, getattr(prop, "EXTRA_COQ_TARGETS", ()))
-    thms, asm_log, asm_ok = coq_assumptions(pid) if (COQ / pid / "Properties.v").exists() else ([], "", False)
+    thms, asm_log, asm_ok = coq_assumptions(pid)
     forb = forbidden_scan()
     broken_obl = []
     if not coq_ok:
